@@ -235,6 +235,9 @@ class FilesystemLocationFile(LocationFile):
         stat_result=None,
     ):
         self._local_path = local_path
+        if isinstance(load_specification, str):
+            # read_csv / read_excel pass their `origin` description (a str) as the specification
+            load_specification = LoadItem(specification=load_specification, source=None)
         self._load_specification = load_specification or LoadItem(
             specification=str(local_path), source=None
         )
